@@ -107,12 +107,26 @@ Definition f64_to_f32 (f : spec_float) : option spec_float :=
 (** ** "%v" of the values the model renders exactly *)
 Definition z_dec (z : Z) : string := NilZero.string_of_int (Z.to_int z).
 
-Definition sprint (o : oracles) (v : val) : string :=
+(** fmt "%v": strings verbatim, integers in decimal, booleans, nil as <nil>, slices as [a b c],
+    maps as map[k:v k:v] with the keys in sorted order (association lists in case files are
+    key-sorted), floats and everything else through the oracle. *)
+Fixpoint join_sp (l : list string) : string :=
+  match l with
+  | [] => ""
+  | [x] => x
+  | x :: r => x ++ " " ++ join_sp r
+  end.
+
+Fixpoint sprint (o : oracles) (v : val) {struct v} : string :=
   match v with
   | VStr s => s
   | VBool true => "true" | VBool false => "false"
   | VInt z | VI64 z | VI32 z => z_dec z
   | VNil => "<nil>"
+  | VList l => "[" ++ join_sp ((fix go (l : list val) : list string :=
+                                  match l with [] => [] | x :: r => sprint o x :: go r end) l) ++ "]"
+  | VMap m => "map[" ++ join_sp ((fix go (l : list (string * val)) : list string :=
+                                    match l with [] => [] | (k, x) :: r => (k ++ ":" ++ sprint o x) :: go r end) m) ++ "]"
   | _ => o_sprint o v
   end.
 
